@@ -162,6 +162,29 @@ def run(ctx):
                     ctx.violation(key % "layout-nested", "%s: a (2,2,n) input is answered with shape %s / values that differ from the members alone" % (name, tuple(out.shape)), rep)
             except Exception:
                 ctx.count("layouts-rejected")
+        # the same batches held as permuted / transposed views (same values, non-contiguous strides): same answers, or a rejection
+        if len(items) >= 4:
+            views = []
+            xb = torch.stack(items[:4])
+            views.append(("(B,n) view of an (n,B) tensor", xb.transpose(0, 1).contiguous().transpose(0, 1), torch.stack(singles[:4])))
+            if nested:
+                xn = torch.stack([torch.stack([items[0], items[1], items[2]]), torch.stack([items[3], items[1], items[0]])])            # (2,3,n)
+                en = torch.stack([torch.stack([singles[0], singles[1], singles[2]]), torch.stack([singles[3], singles[1], singles[0]])])
+                views.append(("(B1,B2,n) view with swapped leading dimensions", xn.transpose(0, 1).contiguous().transpose(0, 1), en))
+            for vname, xv, exp in views:
+                if xv.is_contiguous():
+                    continue
+                try:
+                    out = call(xv)
+                except Exception:
+                    ctx.count("layouts-rejected")
+                    continue
+                ctx.count("view-calls")
+                ctx.nontriv((name, "view", vname))
+                if not same(out, exp, exact):
+                    ctx.violation(key % "layout-view", "%s: a %s (strides %s) is answered with values that differ from the members alone: %s vs %s" % (
+                        name, vname, tuple(xv.stride()), out.reshape(-1).tolist()[:12] if out is not None else None, exp.reshape(-1).tolist()[:12]), dict(rep, view=vname))
+                    break
         # (B, b*n): blocks grouped along the last dimension
         if multiblock and len(items) >= 4:
             for groups in ([[0, 1], [2, 3]], [[0, 1, 2]], [[3, 2, 1, 0], [0, 0, 1, 1]]):
